@@ -2,6 +2,7 @@
 //! (typed access, wrong-type access, clone, cast) of the net engines.
 
 use crate::net::with_ctx;
+use des::net::message::Body;
 use des::prelude::*;
 use std::collections::VecDeque;
 
@@ -194,7 +195,7 @@ impl Drop for ZstDrop {
 #[derive(Debug, Clone, MessageBody)]
 pub struct OneField(pub u64);
 
-pub const N_BODIES: u8 = 21;
+pub const N_BODIES: u8 = 22;
 
 fn tok_len(uid: u32) -> usize {
     [8usize, 100, 436, 1000][(uid as usize >> 3) % 4]
@@ -227,7 +228,8 @@ pub fn declared_len_uid(body: u8, uid: u32) -> usize {
         17 => if uid % 2 == 0 { tok_len(uid) } else { 2 },     // Result<TokBody, String>
         18 => tok_len(uid) + tok_len(uid + 1),                 // [TokBody; 2]
         19 => (0..(uid % 4) as usize).map(|k| tok_len(uid + k as u32)).sum(), // VecDeque<TokBody> (ring buffer wrapped)
-        _ => 0,                                                // ZstDrop
+        20 => 0,                                               // ZstDrop
+        _ => [1usize << 29, 1 << 30, (1 << 31) + 5][(uid as usize >> 2) % 3], // bulk transfer modelled as one message (Body::new_with_len)
     }
 }
 
@@ -275,7 +277,8 @@ pub fn make_message(uid: u32, body: u8) -> Message {
             }
             msg.set_content(v);
         }
-        _ => msg.set_content(ZstDrop::new()),
+        20 => msg.set_content(ZstDrop::new()),
+        _ => msg.set_body(Body::new_with_len(TokBody::new(uid, 0), declared_len_uid(k, uid))),
     }
     msg
 }
@@ -304,7 +307,7 @@ fn wrong_type_access(uid: u32, k: u8, msg: &Message, which: u32) {
             must_fail!(OneField, "OneField(u64)");
         }
         2 => {
-            if !(1..=5).contains(&k) {
+            if !(1..=5).contains(&k) && k != 21 {
                 must_fail!(TokBody, "TokBody");
             }
             if k != 10 {
@@ -462,11 +465,15 @@ fn right_type_read(uid: u32, k: u8, msg: &Message) {
             Some(v) if v.len() == (uid % 4) as usize && v.iter().all(|t| t.ok(uid)) => {}
             _ => bad("VecDeque<TokBody> differs"),
         },
-        _ => {
+        20 => {
             if msg.try_content::<ZstDrop>().is_none() {
                 bad("ZstDrop not readable");
             }
         }
+        _ => match msg.try_content::<TokBody>() {
+            Some(t) if t.ok(uid) => {}
+            _ => bad("bulk body (TokBody with explicit length) not readable or altered"),
+        },
     }
 }
 
@@ -504,7 +511,8 @@ fn successful_cast(uid: u32, k: u8, msg: Message) {
         17 => cast_ok!(Result<TokBody, String>, |r: &Result<TokBody, String>| r.as_ref().map_or(uid % 2 == 1, |t| t.ok(uid))),
         18 => cast_ok!([TokBody; 2], |a: &[TokBody; 2]| a[0].ok(uid)),
         19 => cast_ok!(VecDeque<TokBody>, |v: &VecDeque<TokBody>| v.len() == (uid % 4) as usize),
-        _ => cast_ok!(ZstDrop, |_z: &ZstDrop| true),
+        20 => cast_ok!(ZstDrop, |_z: &ZstDrop| true),
+        _ => cast_ok!(TokBody, |t: &TokBody| t.ok(uid)),
     }
 }
 
@@ -524,7 +532,36 @@ pub fn apply_ops(uid: u32, msg: Message, ops: &[u8]) {
     let n = 1 + (uid as usize % 4);
     for j in 0..n {
         let o = ops[(uid as usize + j) % ops.len()];
-        match o % 7 {
+        match o % 8 {
+            7 => {
+                // the body is replaced by another value of the same type with a different length
+                op("set_content_again");
+                let new_len = match k {
+                    7 => {
+                        let v = "z".repeat(200 + uid as usize % 50);
+                        let n = v.len();
+                        msg.set_content(v);
+                        Some(n)
+                    }
+                    9 => {
+                        let v: Vec<TokBody> = (0..5).map(|j| TokBody::new(uid, 10 + j)).collect();
+                        msg.set_content(v);
+                        Some(10 + 11 + 12 + 13 + 14)
+                    }
+                    6 => {
+                        msg.set_content(7u64);
+                        Some(8)
+                    }
+                    _ => None,
+                };
+                if let Some(n) = new_len {
+                    if msg.length() != 64 + n {
+                        body_error("length", format!("message {uid:#x} (body kind {k}): after the body was replaced by a value of {n} bytes the message reports length {}", msg.length()));
+                    }
+                    drop(msg);
+                    return;
+                }
+            }
             0 => right_type_read(uid, k, &msg),
             1 => wrong_type_access(uid, k, &msg, uid + j as u32),
             2 => {
